@@ -967,7 +967,7 @@ def report_violations(viols, seed, scratch):
             case = c14_extend.minimise(v["case"], v["clause"], rundir)
             if case is None:
                 out.append(f"HARNESS: extend violation {v['clause']} (run {v['index']}) did not reproduce")
-                exit_code = K.EXIT_HARNESS
+                exit_code = K.EXIT_HARNESS if exit_code == K.EXIT_OK else exit_code
                 continue
             doc = {"kind": "extend", "seed": seed, "index": v["index"], "clause": v["clause"], "detail": v["detail"], "case": case}
             fid = match_known(known, doc)
@@ -975,7 +975,7 @@ def report_violations(viols, seed, scratch):
             m = minimise(v["world"], v["ops"], v["clause"], rundir)
             if m is None:
                 out.append(f"HARNESS: violation {v['clause']} (run {v['index']}) did not reproduce from its op list")
-                exit_code = K.EXIT_HARNESS
+                exit_code = K.EXIT_HARNESS if exit_code == K.EXIT_OK else exit_code
                 continue
             world, ops = m
             vv, _ = run_ops_isolated(world, ops, rundir)
@@ -992,8 +992,7 @@ def report_violations(viols, seed, scratch):
         if v["kind"] == "edit":
             out.append(f"  minimised history ({len(doc['ops'])} ops): " + json.dumps(doc["ops"])[:800])
         out.append(f"VIOLATION property={PROP} replay={path}")
-        if exit_code == K.EXIT_OK:
-            exit_code = K.EXIT_VIOLATION
+        exit_code = K.EXIT_VIOLATION  # a demonstrated violation outranks a harness problem elsewhere
     lines = [f"KNOWN-FINDING: property={PROP} {e['what']} [{fid}; {n} minimised histories in this run]"
              for fid, (e, n) in sorted(known_hit.items())]
     return exit_code, replays, lines, out
